@@ -50,10 +50,29 @@ def sens_table():
     return "\n".join(rows)
 
 
+def seeded_table():
+    d = os.path.join(V, "seeded")
+    rows = ["| seeded change (`seeded/<name>/`) | breaks | what it needs to manifest | checks run against it: result |", "|---|---|---|---|"]
+    if not os.path.isdir(d):
+        return "(none yet)"
+    for name in sorted(os.listdir(d)):
+        mp = os.path.join(d, name, "meta.json")
+        if not os.path.exists(mp):
+            continue
+        m = json.load(open(mp))
+        rp = os.path.join(d, name, "result.json")
+        res = json.load(open(rp)) if os.path.exists(rp) else {}
+        cells = ["%s: %s (%.0f s)" % (c, "caught" if r["caught"] else "missed", r["seconds"]) for c, r in sorted(res.items())]
+        need = m.get("needs_to_manifest", "")
+        need = need if len(need) < 260 else need[:257] + "..."
+        rows.append("| %s | %s | %s | %s |" % (name, m.get("property"), need.replace("|", "/").replace("\n", " "), "; ".join(cells) or "not run yet"))
+    return "\n".join(rows)
+
+
 def main():
     p = os.path.join(V, "DESIGN.md")
     s = open(p).read()
-    for tag, fn in (("FIXED", fixed_table), ("SENS", sens_table)):
+    for tag, fn in (("FIXED", fixed_table), ("SENS", sens_table), ("SEEDED", seeded_table)):
         b, e = "<!-- %s-BEGIN -->" % tag, "<!-- %s-END -->" % tag
         if b in s:
             s = s[:s.index(b) + len(b)] + "\n" + fn() + "\n" + s[s.index(e):]
